@@ -16,20 +16,31 @@ from .common import bits, f2b, unbits
 from .qc import torch
 
 from qucumber.observables import NeighbourInteraction, ObservableBase, SigmaX, SigmaY, SigmaZ, SWAP, System  # noqa: E402
-from qucumber.observables.utils import _update_statistics  # noqa: E402
+from qucumber.observables import observable as _obs_module  # noqa: E402
+
+# the pairwise-merge routine is named by the property ("the pairwise-merge routine"), not its private identifier: it is looked up where
+# `ObservableBase.statistics` itself finds it; when it is not there under that name (renamed / inlined) the merge part runs through the
+# public `statistics` only (equal chunkings, value-table observable) instead of crashing the check
+_update_statistics = getattr(_obs_module, "_update_statistics", None)
+if _update_statistics is None:
+    try:
+        from qucumber.observables import utils as _obs_utils  # noqa: E402
+        _update_statistics = getattr(_obs_utils, "_update_statistics", None)
+    except Exception:  # noqa: BLE001
+        _update_statistics = None
 
 FILES = ["qucumber/observables/utils.py", "qucumber/observables/observable.py", "qucumber/observables/system.py",
          "qucumber/nn_states/neural_state.py"]
 EXTRA_TRUSTED = ["C13: nn_state.sample is an arbitrary function of (call number, call) in the model; the harness replays the recorded run (returned tensor identities, per-draw observable values); torch.var_mean is assumed to be the unbiased two-pass variance up to rounding"]
 REQUIRED_THEOREMS = ["C13_merge", "C13_merge_empty_left", "C13_merge_empty_right", "C13_stream", "C13_count", "C13_schedule",
                      "C13_system", "C13_system_init", "C13_system_dict", "C13_system_nodup", "C13_statistics_one_pass",
-                     "C13_fromSamples", "C13_system_fromSamples", "C13_sample"]
+                     "C13_fromSamples", "C13_system_fromSamples", "C13_sample", "C13_system_empty"]
 THEOREMS = {
     "merge": "C13_merge, C13_merge_empty_left, C13_merge_empty_right",
     "stream": "C13_stream, C13_statistics_one_pass",
     "count": "C13_count, C13_count_chains",
     "schedule": "C13_schedule, C13_schedule_threaded, C13_schedule_start, C13_schedule_untouched",
-    "system": "C13_system_dict, C13_system_nodup, C13_system, C13_system_count",
+    "system": "C13_system_dict, C13_system_nodup, C13_system, C13_system_count, C13_system_empty",
     "keys": "C13_system_init",
     "from": "C13_fromSamples",
     "sysfrom": "C13_system_fromSamples, C13_system_init",
@@ -42,18 +53,23 @@ RULE = ("merge cases: a random dataset (2..9 values; small integers, or gaussian
         "(incl. an empty left part and an empty right part) and every chunking into T equal chunks; statistics cases: (num_samples, "
         "num_chains, burn_in, "
         "steps, user chains or not [dtype float64/32/16, int64, uint8, bool; contiguous, strided row/column views of a larger buffer, "
-        "transposed, stride-0 expand], overwrite, set of observables, single/System) with num_samples <= 9, num_chains <= 10 (all pairs in "
-        "thorough, a seeded subset plus the special pairs in quick), burn_in/steps in 0..3, real Gibbs sampling on a small random "
+        "transposed, stride-0 expand], overwrite, set of observables (also the empty System()), single/System) with num_samples <= 9, "
+        "num_chains <= 10 (all pairs in thorough, a seeded subset plus the special pairs in quick; a few cases with 100..1000 samples), "
+        "burn_in/steps in 0..3 and the documented defaults burn_in=1000, steps=1; every `statistics` call passes a positional prefix of "
+        "the documented argument order and the rest by keyword, and (cases marked omit, else with probability 0.4) LEAVES OUT every "
+        "option whose value is the documented default; real Gibbs sampling on a small random "
         "Positive / Complex / Density state with nn_state.sample wrapped on the instance; observables: integer-weight mocks, SigmaX/Y/Z "
         "(plain and absolute), NeighbourInteraction, SWAP, composites - under the library's own names, incl. sets in which two "
         "observables share a name (SigmaX() with SigmaX(absolute=True), equal NeighbourInteractions / composites, SWAP([0]) with "
         "SWAP([1]), same-named mocks); from_samples cases: statistics_from_samples of each observable / of System(...) on batches of "
-        "0..9 rows; sample cases: ObservableBase.sample with every argument form. Argument forms: every integer option (num_samples, "
-        "num_chains, burn_in, steps, k, NeighbourInteraction c, the lengths given to the merge routine) is handed over as a Python int / "
-        "np.int64 / np.int32 / np.intp / np.uint8 / 0-d numpy array / 0-d torch tensor and every boolean option (overwrite, absolute, "
+        "0..9 rows; sample cases: ObservableBase.sample with every argument form. Argument forms: every integer option is handed over as a Python "
+        "int / np.int64 / np.int32 / np.intp / 0-d numpy array (all options), np.uint8 (burn_in, steps, k only) or 0-d torch tensor "
+        "(burn_in, steps, k, num_samples of ObservableBase.sample, NeighbourInteraction c only) and every boolean option (overwrite, absolute, "
         "periodic_bcs, the constructors' gpu) as bool / int / np.bool_ / numpy comparison result / 0-d numpy array / 0-d torch tensor - "
         "only the forms the unchanged code accepts for that option -, by keyword or as a positional prefix of the documented order, drawn "
         "from two per-case streams seeded by the case's fseed / iseed (stored cases without them: plain Python values by keyword). "
+        "Sampler calls are compared after canonicalising what the sampler ignores (num_samples next to an initial_state, overwrite "
+        "without one); num_samples = 0 / a zero-row initial_state are outside the quantifier: outcome counted only. "
         "non-trivial iff at least two draws are merged and the "
         "captured values are not all equal (statistics), >= 2 rows with different values (from_samples); distinct by hash of the case")
 
@@ -152,6 +168,9 @@ class Forms:
         # raises TypeError inside NumPy / Torch themselves, so a harmless rewrite computing with two options would raise a false alarm;
         # which of the two forms a case may use is decided by the parity of its iseed
         self.excluded = None if case.get("iseed") is None else ("t0d" if case["iseed"] % 2 else "np0d")
+        # "omit": every option of a `statistics` call whose value equals the DOCUMENTED default is left out of the call (True: always;
+        # absent: drawn per call from the integer stream; stored cases without streams: never - their calls stay literally the old ones)
+        self.omit = case.get("omit")
 
     def flag(self, what, b, keyword_only=False):
         """-> (object to pass for the truth value b, hand it over positionally?)"""
@@ -195,6 +214,29 @@ def chunk_stats(xs):
     return m.item(), v.item()
 
 
+class TableObs(ObservableBase):
+    """value-table observable: the i-th call of `apply` returns the i-th chunk of a given dataset (whatever the chain states are)"""
+
+    def __init__(self, chunks):
+        self.chunks, self.i = chunks, 0
+        self.name = self.symbol = "Table"
+
+    def apply(self, nn_state, samples):
+        ch = self.chunks[self.i]
+        self.i += 1
+        assert len(samples) == len(ch)
+        return torch.tensor(ch, dtype=torch.double)
+
+
+def fold_public(chunks, c):
+    """the fold over equal chunks through the PUBLIC `ObservableBase.statistics` (num_chains = c, one draw per chunk, no Gibbs steps):
+    used when the merge routine cannot be called directly -> (mean, variance, count)"""
+    import random
+    st = qc.make_positive(2, 1, qc.rand_rbm_params(random.Random(0), 2, 1, 0.1))
+    d = TableObs(chunks).statistics(st, sum(len(ch) for ch in chunks), num_chains=c, burn_in=0, steps=0)
+    return d["mean"], d["variance"], plain(d["num_samples"])
+
+
 # ---------------------------------------------------------------- part A: the pairwise merge
 def merge_case(ctx, case):
     xs = case["xs"]
@@ -205,7 +247,9 @@ def merge_case(ctx, case):
     ctx.case(case, nontrivial=len(set(xs)) > 1 and N >= 3, sample={"part": "merge", "xs": xs})
     ctx.count("merge_dataset"); ctx.count(f"merge_N={N}"); ctx.count("merge_integral" if integral else "merge_float")
     F = Forms(ctx, case)   # the two lengths in the forms in which `statistics` may hand them on (a caller's num_chains; their sums)
-    for s in range(0, N + 1):
+    if _update_statistics is None:
+        ctx.count("merge routine not callable under its private name: equal chunkings run through the public statistics() only")
+    for s in (range(0, N + 1) if _update_statistics is not None else ()):
         a, b = xs[:s], xs[s:]
         sub = {**case, "split": s}
         if s == 0:
@@ -246,7 +290,9 @@ def merge_case(ctx, case):
         chunks = [xs[i:i + c] for i in range(0, N, c)]
         rm, rv, rl = 0.0, 0.0, 0
         cf = F.int("fold chunk length", c, COUNT_FORMS)
-        for ch in chunks:
+        if _update_statistics is None:
+            rm, rv, rl = fold_public(chunks, cf)
+        for ch in (chunks if _update_statistics is not None else ()):
             mb, vb = chunk_stats(ch)
             rm, rv, rl = _update_statistics(rm, rv, rl, mb, vb, cf)   # the running length stays whatever the routine returned
         rl = plain(rl)
@@ -274,7 +320,7 @@ def formula_case(ctx, case):
     a = case["args"]
     ctx.case(case, nontrivial=a[2] > 0 and a[5] > 0, sample={"part": "formula", "args": a})
     ctx.count("formula_case")
-    if a[2] == 0 and a[5] == 0:
+    if (a[2] == 0 and a[5] == 0) or _update_statistics is None:
         return  # nothing merged with nothing: never happens in a statistics run, the returned placeholder is not constrained by the property
     va = float("nan") if a[1] is None else float(a[1])
     vb = float("nan") if a[4] is None else float(a[4])
@@ -426,6 +472,18 @@ def make_user(rows, n, form):
 
 
 STAT_ARGS = ("num_samples", "num_chains", "burn_in", "steps", "initial_state", "overwrite")   # the documented order after nn_state
+# the DOCUMENTED defaults of both `statistics` methods (docstrings / signatures of ObservableBase.statistics and System.statistics):
+# the model is always told these values when an option is left out, so a changed default is a mismatch
+STAT_DEFAULTS = {"num_chains": 0, "burn_in": 1000, "steps": 1, "initial_state": None, "overwrite": False}
+
+
+def canon_call(cl):
+    """one recorded sampler call, reduced to what the sampler's documented contract makes observable: `num_samples` is ignored when an
+    `initial_state` is given (the row count of that tensor counts: canonical value = its rows) and `overwrite` is meaningless without
+    one (canonical value True, the model's); k and the identity token of initial_state are kept as they are"""
+    has = cl["init_copy"] is not None
+    return {"num_samples": len(cl["init_copy"]) if has else cl["num_samples"], "k": cl["k"], "init": cl["init"],
+            "overwrite": cl["overwrite"] if has else True}
 
 
 def stat_call(F, what, target, st, ns, nc, burn, steps, init, ow):
@@ -436,7 +494,23 @@ def stat_call(F, what, target, st, ns, nc, burn, steps, init, ow):
             "burn_in": F.int(f"{what} burn_in", burn, STEP_FORMS), "steps": F.int(f"{what} steps", steps, STEP_FORMS),
             "initial_state": init, "overwrite": ow_obj}
     p = F.prefix(what, len(STAT_ARGS), full=ow_pos)
-    return call_with_prefix(target.statistics, st, [(k, vals[k]) for k in STAT_ARGS], p)
+    named = [(k, vals[k]) for k in STAT_ARGS]
+    rng = F.it.rng
+    if F.omit or (F.omit is None and rng is not None and rng.random() < 0.4):
+        # the forms users write: `obs.statistics(state, N)`, `System.statistics(state, N, burn_in=..)`, `statistics(state, N,
+        # initial_state=c)` - every option behind the positional prefix whose value is the documented default is simply not passed
+        plainv = {"num_chains": nc, "burn_in": burn, "steps": steps, "initial_state": init, "overwrite": ow}
+        if F.omit:
+            p = min(p, 1)                                   # marked cases: `statistics(state, N, <keywords>)`
+        elif p == len(STAT_ARGS) and ow is False:
+            p = 0 if rng is None else rng.randrange(0, 3)   # a positional `overwrite` default would keep every option in the call
+        omitted = [k for k in STAT_ARGS[p:] if k in STAT_DEFAULTS and (plainv[k] is None if k == "initial_state" else
+                                                                         (plainv[k] is not None and plainv[k] == STAT_DEFAULTS[k]))]
+        named = named[:p] + [(k, v) for k, v in named[p:] if k not in omitted]
+        for k in omitted:
+            F.ctx.count(f"{what} {k} omitted (documented default)")
+        F.ctx.count(f"{what}: call with {len(omitted)} options omitted")
+    return call_with_prefix(target.statistics, st, named, p)
 
 
 def stats_case(ctx, case):
@@ -512,9 +586,20 @@ def stats_case(ctx, case):
     if c_exp == 1 or ns == 1:
         ctx.count("single_value_chunks_or_single_sample")
 
+    if ns == 0 or c_exp == 0:
+        # OUTSIDE the quantifier (nothing requested / a zero-row initial_state): the property says nothing about what happens - the
+        # unchanged code divides by zero; a ValueError("num_samples must be positive"), or undefined statistics of no sample, would be
+        # as good.  The outcome is only counted: no oracle, no model comparison.
+        for (r, err, calls, idxs, user, backing) in runs:
+            ctx.count(f"outside the quantifier (num_samples = 0 / no chains): {err if err else 'no exception'}")
+        ctx.case(desc | {"seed": case["torch_seed"]}, nontrivial=False,
+                 sample={"part": "statistics", **{k: desc[k] for k in ("ns", "nc", "burn_in", "steps", "overwrite", "system", "init_rows")},
+                         "obs": [s["type"] for s in case["obs"]]})
+        return
+
     for (r, err, calls, idxs, user, backing) in runs:
-        exp_err = "ZeroDivisionError" if (c_exp == 0 or (T_exp == 0 and len(idxs) > 0)) else None
-        ctx.oracle("error exactly when no chain / no draw", err == exp_err, case, detail={"impl": err, "expected": exp_err},
+        exp_err, survivor = None, {}
+        ctx.oracle("no exception for num_samples >= 1 and >= 1 chain", err is None, case, detail={"impl": err, "expected": exp_err},
                    sig=f"{sig0}/error-oracle", theorem=THEOREMS["count"])
         vals = [[o.apply(st, cl["ret_copy"].clone()).detach().numpy().astype(np.float64).tolist() for cl in calls] for o in (obs[i] for i in idxs)]
         ks = [cl["k"] for cl in calls]
@@ -526,11 +611,12 @@ def stats_case(ctx, case):
             ctx.oracle("k schedule == [burn_in, steps, ...]", ks == [burn] + [steps] * (T - 1), case, detail={"k": ks},
                        sig=f"{sig0}/k-schedule", theorem=THEOREMS["schedule"])
             ctx.oracle("draws == ceil(num_samples / chains), chains as documented",
-                       T == T_exp and all(cl["num_samples"] == c_exp and len(cl["ret_copy"]) == c_exp for cl in calls), case,
-                       detail={"T": T, "T_expected": T_exp, "c_expected": c_exp, "c": [len(cl["ret_copy"]) for cl in calls]},
+                       T == T_exp and all(canon_call(cl)["num_samples"] == c_exp and len(cl["ret_copy"]) == c_exp for cl in calls), case,
+                       detail={"T": T, "T_expected": T_exp, "c_expected": c_exp, "c": [len(cl["ret_copy"]) for cl in calls],
+                               "num_samples (where the sampler reads it)": [canon_call(cl)["num_samples"] for cl in calls]},
                        sig=f"{sig0}/count", theorem=THEOREMS["count"])
             cont = all(calls[i + 1]["init"] == calls[i]["ret"] and torch.equal(calls[i + 1]["init_copy"], calls[i]["ret_copy"])
-                       for i in range(T - 1)) and all(cl["overwrite"] is True for cl in calls)
+                       for i in range(T - 1)) and all(canon_call(cl)["overwrite"] is True for cl in calls)
             ctx.oracle("each draw continues the chains returned by the previous one", cont, case,
                        detail={"inits": [cl["init"] for cl in calls], "rets": [cl["ret"] for cl in calls]},
                        sig=f"{sig0}/continuity", theorem=THEOREMS["schedule"])
@@ -554,25 +640,41 @@ def stats_case(ctx, case):
             else:
                 ctx.oracle("first draw starts from fresh chains", calls[0]["init"] is None, case, sig=f"{sig0}/start",
                            theorem=THEOREMS["schedule"])
+            oks, dets = {}, {}
             for j, oi in enumerate(idxs):
                 allv = [x for ch in vals[j] for x in ch]
                 M, V, N = exact_stats(allv)
                 sc = max(1.0, max(abs(x) for x in allv))
                 d = r[j]
-                ok = d is not None and (plain(d["num_samples"]) == N == T * c_exp and N >= ns and stat_close(d["mean"], M, sc, 1e-9)
-                                        and var_close(d["variance"], V, sc) and se_close(d["std_error"], V, N, sc))
-                # "each observable gets the result it would get alone on the same chain states": when it does not, and a LATER observable
-                # of the set carries the same name with different per-sample values, this is the known merge of same-named observables
-                merged = system and any(k != oi and names[k] == names[oi] and vals[k] != vals[j] for k in range(len(obs)))
-                ctx.oracle("result == one-pass statistics of every drawn sample" if not (merged and not ok) else
-                           "System: observables sharing a name are merged into one entry (this one does not get its own statistics)", bool(ok), case,
-                           detail={"impl": None if d is None else {k: float(x) for k, x in d.items()},
-                                   "expected": [float(M), None if V is None else float(V), N], "obs": oi, "names": names},
-                           sig=(SIG_MERGED if merged else f"{sig0}/one-pass"), theorem=THEOREMS["system"] if system else THEOREMS["stream"])
-                if merged:
-                    ctx.count("same_name_different_values_merged")
+                oks[oi] = bool(d is not None and (plain(d["num_samples"]) == N == T * c_exp and N >= ns and stat_close(d["mean"], M, sc, 1e-9)
+                                                  and var_close(d["variance"], V, sc) and se_close(d["std_error"], V, N, sc)))
+                dets[oi] = {"impl": None if d is None else {k: float(x) for k, x in d.items()},
+                            "expected": [float(M), None if V is None else float(V), N], "obs": oi, "names": names}
                 if T >= 2 and len(set(allv)) > 1:
                     nontriv = True
+            # survivor: name given several times with different values -> the observable whose statistics the entry holds
+            for j, oi in enumerate(idxs):
+                # "each observable gets the result it would get alone on the same chain states".  Observables sharing a NAME with
+                # different per-sample values are merged into one entry (known finding): that entry must still be the one-pass statistics
+                # of ONE of them (which one is not constrained) - judged under the ordinary signature; only the others, which do not get
+                # their own statistics, are reported under the known signature
+                group = [k for k in idxs if names[k] == names[oi]] if system else [oi]
+                merged = any(vals[idxs.index(k)] != vals[j] for k in group)
+                th = THEOREMS["system"] if system else THEOREMS["stream"]
+                if not merged:
+                    ctx.oracle("result == one-pass statistics of every drawn sample", oks[oi], case, detail=dets[oi], sig=f"{sig0}/one-pass",
+                               theorem=th)
+                    continue
+                ctx.count("same_name_different_values_merged")
+                good = [k for k in group if oks[k]]
+                if good:
+                    survivor[names[oi]] = good[0]
+                    ctx.oracle("result == one-pass statistics of every drawn sample" if oks[oi] else
+                               "System: observables sharing a name are merged into one entry (this one does not get its own statistics)",
+                               oks[oi], case, detail=dets[oi], sig=(f"{sig0}/one-pass" if oks[oi] else SIG_MERGED), theorem=th)
+                elif oi == group[0]:
+                    ctx.oracle("System: the entry under a shared name is the one-pass statistics of ONE of the observables given with that name",
+                               False, case, detail={"group": group, "candidates": [dets[k] for k in group]}, sig=f"{sig0}/one-pass", theorem=th)
         # ---- model
         if ctx.driver is not None:
             m = ctx.driver.call("c13.statistics", num_samples=ns, num_chains=nc, burn_in=burn, steps=steps, overwrite=ow,
@@ -583,7 +685,8 @@ def stats_case(ctx, case):
             merr = mres.get("error") if isinstance(mres, dict) else None
             ctx.point("error kind", "property", err, merr, case, exact=True, sig=f"{sig0}/error-kind", theorem=THEOREMS["count"])
             if err is None and merr is None:
-                icalls = [{"num_samples": cl["num_samples"], "k": cl["k"], "init": cl["init"], "overwrite": cl["overwrite"]} for cl in calls]
+                # arguments the sampler ignores (num_samples next to an initial_state, overwrite without one) are canonicalised
+                icalls = [canon_call(cl) for cl in calls]
                 ctx.point("sampler calls (num_samples, k, initial_state identity, overwrite)", "property", icalls, mres["calls"], case,
                           exact=True, theorem=THEOREMS["schedule"], sig=f"{sig0}/calls")
                 ctx.point("T and c", "property", [len(calls), c_exp], [m["T"], m["c"]], case, exact=True, theorem=THEOREMS["count"],
@@ -595,9 +698,12 @@ def stats_case(ctx, case):
                               exact=True, theorem=THEOREMS["keys"], sig="system/keys")
                     # names given several times with DIFFERENT values: which of them survives is not constrained by the property (the merge
                     # itself is the finding reported above) - those entries are not compared with the model
+                    # (the entry is compared with the model's one-pass statistics of the observable it was found to hold, and with the
+                    # model's streaming entry only when that is the one the model keeps, the last)
                     conflict = {nm for nm in keys if any(vals[k] != vals[last[nm]] for k in range(len(obs)) if names[k] == nm)}
-                    entries = [(r[last[nm]], last[nm], m["onepass"][last[nm]], mres["stats"][q]) for q, nm in enumerate(mres["names"])
-                               if nm in last and r[last[nm]] is not None and nm not in conflict]
+                    pick = {nm: (survivor.get(nm) if nm in conflict else last[nm]) for nm in keys}
+                    entries = [(r[pick[nm]], pick[nm], m["onepass"][pick[nm]], mres["stats"][q] if pick[nm] == last[nm] else None)
+                               for q, nm in enumerate(mres["names"]) if nm in last and pick[nm] is not None and r[pick[nm]] is not None]
                 else:
                     entries = [(r[0], idxs[0], m["onepass"][0], mres["stats"])]
                 for (d, oi, m_one, m_stream) in entries:
@@ -605,6 +711,8 @@ def stats_case(ctx, case):
                     allv = [x for ch in vals[j] for x in ch]
                     sc = max(1.0, max(abs(x) for x in allv))
                     for key, lvl, mm in (("onepass", "property", m_one), ("stream", "aux", m_stream)):
+                        if mm is None:
+                            continue
                         if "error" in mm:
                             ctx.point(f"{key}", lvl, "ok", mm["error"], case, exact=True, sig=f"{sig0}/{key}")
                             continue
@@ -647,18 +755,18 @@ def from_samples_case(ctx, case):
              nontrivial=B >= 2 and any(len(set(v)) > 1 for v in vals),
              sample={"part": "from_samples", "system": system, "B": B, "obs": [sp["type"] for sp in case["obs"]], "state": case["state"]["kind"]})
 
-    def check(d, oi, label):
+    def check(d, oi, label, report=True):
         v = vals[oi]
         M, V, N = exact_stats(v)
         sc = max(1.0, max(abs(x) for x in v))
-        ok = d is not None and (d["num_samples"] == N == B and stat_close(d["mean"], M, sc, 1e-9) and var_close(d["variance"], V, sc)
-                                and se_close(d["std_error"], V, N, sc))
-        merged = system and any(k != oi and names[k] == names[oi] and vals[k] != v for k in range(len(obs)))
-        ctx.oracle(f"{label} == one-pass statistics of the observable's values on the batch", bool(ok), case,
-                   detail={"impl": None if d is None else {k: float(x) for k, x in d.items()},
-                           "expected": [float(M), None if V is None else float(V), N], "obs": oi, "names": names},
-                   sig=(SIG_MERGED if merged else f"{sig0}/one-pass"), theorem=THEOREMS["sysfrom" if system else "from"])
-        return sc, V
+        ok = bool(d is not None and (d["num_samples"] == N == B and stat_close(d["mean"], M, sc, 1e-9) and var_close(d["variance"], V, sc)
+                                     and se_close(d["std_error"], V, N, sc)))
+        det = {"impl": None if d is None else {k: float(x) for k, x in d.items()},
+               "expected": [float(M), None if V is None else float(V), N], "obs": oi, "names": names}
+        if report:
+            ctx.oracle(f"{label} == one-pass statistics of the observable's values on the batch", ok, case, detail=det,
+                       sig=f"{sig0}/one-pass", theorem=THEOREMS["sysfrom" if system else "from"])
+        return ok, det
 
     def points(d, mm, oi, label):
         sc = max(1.0, max(abs(x) for x in vals[oi]))
@@ -675,6 +783,7 @@ def from_samples_case(ctx, case):
         num_samples == 0 and undefined (nan) statistics would be as good"""
         return d["num_samples"] == 0 and all(math.isnan(float(d[k])) for k in ("mean", "variance", "std_error"))
 
+    survivor = {}
     if system:
         sysobj = System(*obs)
         r, err = None, None
@@ -694,8 +803,27 @@ def from_samples_case(ctx, case):
             ctx.oracle("System.statistics_from_samples returns one entry per distinct name",
                        sorted(r.keys()) == sorted(keys), case, detail={"impl": list(r.keys()), "expected": keys}, sig=f"{sig0}/keys",
                        theorem=THEOREMS["keys"])
+            res = [check(r.get(names[oi]), oi, "System.statistics_from_samples", report=False) for oi in range(len(obs))]
             for oi in range(len(obs)):
-                check(r.get(names[oi]), oi, "System.statistics_from_samples")
+                # as in stats_case: an entry under a name shared by observables with different values must be the one-pass statistics of
+                # ONE of them (ordinary signature); the others are the known finding
+                group = [k for k in range(len(obs)) if names[k] == names[oi]]
+                merged = any(vals[k] != vals[oi] for k in group)
+                ok, det = res[oi]
+                th = THEOREMS["sysfrom"]
+                label = "System.statistics_from_samples == one-pass statistics of the observable's values on the batch"
+                if not merged:
+                    ctx.oracle(label, ok, case, detail=det, sig=f"{sig0}/one-pass", theorem=th)
+                    continue
+                good = [k for k in group if res[k][0]]
+                if good:
+                    survivor[names[oi]] = good[0]
+                    ctx.oracle(label if ok else "System: observables sharing a name are merged into one entry (this one does not get its own "
+                               "statistics)", ok, case, detail=det, sig=(f"{sig0}/one-pass" if ok else SIG_MERGED), theorem=th)
+                elif oi == group[0]:
+                    ctx.oracle("System: the entry under a shared name is the one-pass statistics of ONE of the observables given with that name",
+                               False, case, detail={"group": group, "candidates": [res[k][1] for k in group]}, sig=f"{sig0}/one-pass",
+                               theorem=th)
         if ctx.driver is not None and (B > 0 or err is not None):
             m = ctx.driver.call("c13.system_from_samples", names=names, values=[bits(v) for v in vals])
             ctx.point("System.statistics_from_samples: error kind", "property", err, m.get("error"), case, exact=True,
@@ -707,6 +835,12 @@ def from_samples_case(ctx, case):
                 for q, nm in enumerate(m["names"]):
                     if nm in r and nm in last and nm not in conflict:
                         points(r[nm], m["stats"][q], last[nm], f"System.statistics_from_samples[{q}]")
+                    elif nm in r and survivor.get(nm) is not None:
+                        # which of the conflicting observables the entry holds is not constrained: compared with the model's
+                        # statistics_from_samples of the one it was found to hold
+                        m1 = ctx.driver.call("c13.from_samples", xs=bits(vals[survivor[nm]]))
+                        if "error" not in m1:
+                            points(r[nm], m1, survivor[nm], f"System.statistics_from_samples[{q}]")
     else:
         for oi, o in enumerate(obs):
             d, err = None, None
@@ -773,9 +907,12 @@ def sample_case(ctx, case):
     if call_form == "default":
         ns, ow, user, user_before = 1, False, None, None
     r, err, calls = record_run(st, user, run)
-    exp_call = {"num_samples": ns, "k": k, "init": None if user is None else 0, "overwrite": ow}
-    got = [{"num_samples": cl["num_samples"], "k": cl["k"], "init": cl["init"], "overwrite": cl["overwrite"]} for cl in calls]
-    ctx.oracle("sample: no exception, exactly one sampler call receiving (num_samples, k, the caller's tensor, overwrite) unchanged",
+    # arguments the sampler ignores are canonicalised on both sides (num_samples := rows of initial_state when one is given, overwrite :=
+    # True when none is): handing them on or not makes no observable difference
+    exp_call = {"num_samples": ns if user is None else len(case["init"]), "k": k, "init": None if user is None else 0,
+                "overwrite": ow if user is not None else True}
+    got = [canon_call(cl) for cl in calls]
+    ctx.oracle("sample: no exception, exactly one sampler call receiving (num_samples, k, the caller's tensor, overwrite) as far as the sampler reads them",
                err is None and got == [exp_call], case, detail={"error": err, "calls": got, "expected": [exp_call]}, sig="sample/call",
                theorem=THEOREMS["sample"])
     if err is not None or len(calls) != 1:
@@ -799,7 +936,12 @@ def sample_case(ctx, case):
     if ctx.driver is not None:
         m = ctx.driver.call("c13.sample", k=k, num_samples=ns, overwrite=ow, has_init=user is not None, ret_id=calls[0]["ret"],
                             values=bits(want))
-        ctx.point("sample: the sampler call", "property", got[0], m["call"], case, exact=True, theorem=THEOREMS["sample"], sig="sample/model-call")
+        mcall = dict(m["call"])
+        if user is not None:
+            mcall["num_samples"] = len(case["init"])
+        else:
+            mcall["overwrite"] = True
+        ctx.point("sample: the sampler call", "property", got[0], mcall, case, exact=True, theorem=THEOREMS["sample"], sig="sample/model-call")
         ctx.point("sample: values", "property", gotv, unbits(m["values"]), case, scale=sc, theorem=THEOREMS["sample"], sig="sample/model-values")
 
 
@@ -964,7 +1106,32 @@ def gen_cases(ctx, thorough):
     # ObservableBase.sample
     for _ in range(90 if thorough else 30):
         yield gen_sample_case(rng)
-    # malformed stream: nothing requested / no chains
+    # the DOCUMENTED defaults (num_chains=0, burn_in=1000, steps=1, initial_state=None, overwrite=False): calls that leave every option
+    # with that value out, the way users write them; besides, every case with form streams omits them with probability 0.4 (stat_call)
+    def with_(c, **kw):
+        c.update(kw)
+        return c
+    for rep_ in range(3 if thorough else 1):
+        yield with_(gen_stats_case(rng, rng.randrange(2, 8), 0, False), burn_in=1000, steps=1, omit=True)      # obs.statistics(state, N)
+        yield with_(gen_stats_case(rng, rng.randrange(2, 8), 0, True), burn_in=1000, steps=1, omit=True)       # System(..).statistics(state, N)
+        yield with_(gen_stats_case(rng, 7, 3, rng.random() < 0.5), steps=1, omit=True)                         # ..., num_chains=3, burn_in=b): 3 draws
+        yield with_(gen_stats_case(rng, 9, 4, rng.random() < 0.5), burn_in=1000, omit=True)                    # ..., num_chains=4, steps=s)
+        yield with_(gen_stats_case(rng, 6, 0, rng.random() < 0.5, user_rows=2), burn_in=1000, steps=1, omit=True)   # ..., initial_state=c): c untouched
+        yield with_(gen_stats_case(rng, 5, 0, rng.random() < 0.5, user_rows=3, init_form="cols"), steps=1, omit=True)
+        yield with_(gen_stats_case(rng, 4, 0, rng.random() < 0.5, user_rows=2, overwrite=True), burn_in=1000, steps=1, omit=True)
+    # an empty set of observables ("any set"): System().statistics draws as usual and returns {}
+    yield {**gen_stats_case(rng, 5, 2, True), "obs": []}
+    yield {**gen_stats_case(rng, 4, 0, True, user_rows=3, overwrite=True), "obs": []}
+    # more than a handful of samples: hundreds of values per observable, many draws / one wide draw
+    yield gen_stats_case(rng, 120, 7, False)
+    yield gen_stats_case(rng, 257, 0, True)
+    yield gen_stats_case(rng, 100, 100, rng.random() < 0.5)
+    yield gen_stats_case(rng, 101, 50, False)                    # just above a multiple: 3 draws of 50
+    yield gen_stats_case(rng, 103, 25, True)                     # 5 draws of 25
+    if thorough:
+        yield gen_stats_case(rng, 1000, 64, True)
+        yield gen_stats_case(rng, 333, 1, False)
+    # outside the quantifier (outcome only counted): nothing requested / no chains
     yield gen_stats_case(rng, 0, 0, False)
     yield gen_stats_case(rng, 0, 3, True)
     yield gen_stats_case(rng, 0, 2, False, user_rows=2)
